@@ -74,7 +74,7 @@ Example C15_linked_list_nonvacuous :
      (RBufOk, 3); (RBufOp (Some 1), 3); (RBufOp (Some 3), 2); (RBufOp (Some 5), 2); (RBufOp None, 1); (RBufOp None, 1)]%nat.
 Proof. vm_compute. reflexivity. Qed.
 
-Definition d2_cfg : cfg := mkCfg V1 1 false false 0 0 0 0 0 0 [mkW 0 0 0] 0 0 0.
+Definition d2_cfg : cfg := mkCfg V1 1 false false 0 0 0 0 0 0 [mkW 0 0 0] 0 0 0 0.
 Definition d2_enq (obj : nat) : label := AEnqueue (mkE false (Some 0%nat) obj 1 1 true 0 false).
 Theorem C15_shutdown_releases_v1_refuted :
   exists s os, run d2_cfg (init d2_cfg)
